@@ -153,6 +153,16 @@ PROPS = {
         assumptions=['suspend(d) resumes at now + d and postpone() in the same time step (C01 theorems)', 'exact rational time'],
         partial=[],
     ),
+    'C13': dict(
+        gen=['Pipe', 'Timing'], props=['C13', 'Skeletons'], model=['Prim/Pipe', 'Machine/Run', 'Judge/Judges'], harness='c13',
+        trusted_base=KERNEL_TB + MACHINE_TB + [
+            'translated from source: the arithmetic and decisions of Pipe.transfer/_throttle_subscribers/UnboundedPipe.transfer; statement skeleton (zero guard, try/finally _del_subscriber, congestion subscription) matched',
+            'IEEE-754 double arithmetic of Lean\'s Float and CPython agree operation by operation (checked bit for bit by the correspondence); CPython >= 3.12 sum() is Neumaier summation (hand-modelled: pySumFloat)',
+            'the harness converts each double of a trace to the exact rational it denotes before the Lean judge sees it'],
+        assumptions=['theorems are over exact rationals; "up to floating point rounding" is the judge tolerance 1e-9 x (volume + 1)',
+                     'suspend(d) resumes at now + d, postpone() in the same time step (C01)'],
+        partial=[],
+    ),
     'C20': dict(
         gen=['Timing', 'Scope'], props=['C20', 'C02', 'Skeletons'], model=['Machine/Run', 'Machine/Step', 'Judge/Judges'], harness='c20',
         trusted_base=KERNEL_TB + MACHINE_TB + ['templates: postpone/suspend/__await__ of conditions, Scope.__aexit__; the per-operation code paths are hand-modelled in Machine/Run.lean and tied by exact trace correspondence'],
@@ -300,6 +310,20 @@ MANIFEST_TEXT = {
         note='trusted: Lean kernel + standard axioms; translator; C01 for the meaning of suspend/postpone',
         technique='Lean 4 arithmetic induction over translated code + exact whole-machine differential traces + Lean trace judge',
         design_ref='6 (C14)'),
+    'C13': dict(
+        level='Lean 4 theorems over the code of pipe.py translated on every run: the throttling decision computes the fluid '
+              'model\'s scale min(1, throughput / sum of limits) whatever it was before and wakes every transfer whenever it '
+              'changes (throttle_scale, throttle_wakes_on_change); rate = min(limit, limit x throughput / sum) (rate_eq_min), combined '
+              'flow <= throughput and = throughput when congested (total_flow), uncongested_full_speed; for every number of '
+              'congestion changes at arbitrary times a transfer completes exactly when the integral of its rate reaches its '
+              'volume and not before (completes_when_integral_reaches_total, by induction over windows); zero volume / '
+              'UnboundedPipe timing; any exception in a waiting window leaves through _del_subscriber, which removes exactly '
+              'that share and re-throttles (cancel_frees_share, pipeFinish_frees, throttle_sets_scale). Bit-exact whole-machine '
+              'correspondence on IEEE doubles for overlapping transfers with cancellations, deadlines and closed volatile tasks; '
+              'Lean judge replays the exact rational fluid model over implementation traces.',
+        note='trusted: Lean kernel + standard axioms; translator; Float/CPython double agreement and CPython sum() modelled; rounding covered only by the judge tolerance',
+        technique='Lean 4 proof over translated arithmetic (induction over windows) + bit-exact whole-machine differential traces + Lean fluid-model judge',
+        design_ref='6 (C13)'),
     'C20': dict(
         level='Lean 4 theorems for every world state: postpone() always hibernates the caller and queues its wake-up behind '
               'everything already runnable (postpone_hibernates, with C02 fifo_now); each listed operation in a state where it '
